@@ -602,7 +602,10 @@ static int decode_text(struct scanner_s *scanner, UChar *text, int32_t text_leng
 #define TRIM_TOKEN(s, n) do { \
     struct scanner_s *_s_pb = (s); \
     int32_t _n = (n); \
-    _s_pb->next_char = _s_pb->text_start + _n; \
+    UChar *_keep_end = _s_pb->text_start + _n; \
+    /* the characters pushed back will be counted again when they are scanned again */ \
+    POSN_INCCOLUMN(_s_pb, -u_countChar32(_keep_end, (int32_t) (_s_pb->next_char - _keep_end))); \
+    _s_pb->next_char = _keep_end; \
     TVALUE_SETLENGTH(_s_pb, _s_pb->next_char - TVALUE_START(_s_pb)); \
 } while (CIF_FALSE)
 
